@@ -102,6 +102,10 @@ impl Trace {
                         Kind::Sync => {
                             if let Some(s) = ft.syncs.get_mut(idx) {
                                 s.end = e.seq;
+                                // the call site did not confirm the system call (it failed, or was skipped after the hook)
+                                if e.injected {
+                                    s.injected = true;
+                                }
                             }
                         }
                         _ => {}
